@@ -35,7 +35,7 @@ def r1(ctx, F, hub):
     for b, bb, c, pos, op in sinks:
         labels = hub.label_operand(b, op)
         fl = flow_of(b)
-        key = '%s:%s(%s)' % (b.path.split('::{')[0] + ('{closure}' if '::{' in b.path else ''), c.split('::')[-1], root_name(fl, op))
+        key = '%s:%s(%s)' % (b.path.split('::{')[0] + ('{closure}' if '::{' in b.path else ''), c.split('::')[-1], root_name(fl, op).replace(' ', '_'))
         bad = labels & {TAINT, OTHER}
         # parent()/with_file_name()/with_extension() of a request path: fine for creating the directory chain above a file,
         # but as the target of a create / rename / remove it names the parent or a sibling of the served directory when the
